@@ -49,3 +49,17 @@ Check C17_example : map r_name (list_rows false 0 (fun _ => false) ex_rows) = [l
   map r_name (list_rows true 0 (fun _ => false) ex_rows) = [lit "a/b c"; lit "d/l"] /\
   In (lit "d", lit "l", 2) (tree_nodes (list_rows true 0 (fun _ => false) ex_rows)).
 Print Assumptions C17_example.
+
+(* -q (hide control characters) is a printer option: the rows it prints are those of list_rows, one output line
+   per row whatever bytes the names hold (no control byte, hence no line feed, survives in a printed name) *)
+Theorem C17_quiet_one_line_per_row : forall classify solid nf sel a,
+  count_lf (plain_output_q classify (list_rows solid nf sel a)) = length (list_rows solid nf sel a).
+Proof. exact (fun classify solid nf sel a => plain_q_one_line_per_row classify (list_rows solid nf sel a)). Qed.
+Check C17_quiet_one_line_per_row : forall classify solid nf sel a,
+  count_lf (plain_output_q classify (list_rows solid nf sel a)) = length (list_rows solid nf sel a).
+Print Assumptions C17_quiet_one_line_per_row.
+
+Theorem C17_quiet_prints_graphic : forall s, Forall (fun b => 32 <= b2n b /\ b2n b <> 127) (hide_control s).
+Proof. exact hide_control_graphic. Qed.
+Check C17_quiet_prints_graphic : forall s, Forall (fun b => 32 <= b2n b /\ b2n b <> 127) (hide_control s).
+Print Assumptions C17_quiet_prints_graphic.
